@@ -910,6 +910,9 @@ class BaseRequest:
         env = self.environ.copy()
         new_req = self.__class__(env)
         new_req.copy_body()
+        # copy_body() read the body through the wsgi.input both requests still
+        # shared: leave ours at the start again, as make_body_seekable() did
+        self.body_file_raw.seek(0)
 
         return new_req
 
